@@ -77,22 +77,63 @@ def cmdTrace (c : Case) (useSpec : Bool) : IO UInt32 := do
 
 /-! ### the buffer-level machine (Runtime/Buf.lean) on the emitted tables -/
 
-/-- `bufrun`: the sizes of the read requests and the tokens, from buffer size, read schedule and
-    source of the case file -/
+/-- what an action script does at the buffer level: `less:a` keeps `prefix + a mod (new part + 1)`
+    characters (the harness's convention), `more` is yymore(); other operations do not touch the
+    input (`none`: the script contains one that does — `bufrun` then has nothing to say) -/
+def bufAct (ops : List Op) (pre : Nat) (text : List UInt8) : Option Buf.Act :=
+  let rec go (ops : List Op) (len : Nat) (lessed : Option Nat) (more : Bool) : Option Buf.Act :=
+    match ops with
+    | [] => some (match lessed, more with
+        | none, false => .plain
+        | some n, false => .less n
+        | none, true => .more
+        | some n, true => .lessMore n)
+    | .less a :: rest =>
+      let n := pre + a % (len - pre + 1)
+      go rest n (some n) more
+    | .more :: rest => go rest len lessed true
+    | .ret _ :: _ => go [] len lessed more       -- the action returns: the rest is not executed
+    | .start :: rest => go rest len lessed more
+    | .atbol :: rest => go rest len lessed more
+    | .getlineno :: rest => go rest len lessed more
+    | _ => none
+  go ops text.length none false
+
+/-- `bufrun`: the sizes of the read requests and the tokens, from buffer size, read schedule,
+    source and action scripts of the case file -/
 def cmdBufRun (c : Case) : IO UInt32 := do
+  let rs := RunSpec.ofCase c
   let mut bufsize := 16384
   let mut sched : List Nat := []
-  let mut src : List UInt8 := []
   let mut inter := false
   for (k, ws) in c.extra do
     match k, ws with
     | "bufsize", v :: _ => bufsize := v.toNat?.getD 16384
     | "sched", vs => sched := vs.filterMap String.toNat?
-    | "src", "0" :: rest => src := parseHex (rest.head?.getD "")
     | "interactive", v :: _ => inter := v == "1"
     | _, _ => pure ()
+  let src := rs.srcs.getD 0 []
   let D := tableDFA c.tables inter
-  let st := Buf.run D (Buf.schedReader sched) (src.length + 2) (Buf.init bufsize src)
+  let dflt := c.tables.numRules
+  -- the default rule's ECHO takes no script; a script the buffer level cannot express ends the run
+  let unsupported := rs.acts.any fun ops => (bufAct ops 0 []).isNone
+  if unsupported then
+    IO.println "unsupported"
+    return 0
+  -- yymore(): the prefix length at the time of the action is known to `Buf.run`; `bufAct` needs it
+  -- for the harness's relative `less` argument, so it is recovered from the previous action
+  let script : Buf.Script := fun k r text =>
+    if r == dflt then (.plain, (k / 4294967296) * 4294967296) else
+    -- k encodes (script index, prefix length) as index * 2^32 + prefix
+    let idx := k / 4294967296
+    let pre := k % 4294967296
+    let a := (bufAct (rs.acts.getD idx []) pre text).getD .plain
+    let pre' := match a with
+      | .more => text.length
+      | .lessMore n => min n text.length
+      | _ => 0
+    (a, (idx + 1) * 4294967296 + pre')
+  let st := Buf.run D (Buf.schedReader sched) script (2 * src.length + 4) 0 (Buf.init bufsize src)
   let stdout ← IO.getStdout
   for e in st.out do
     match e with
